@@ -130,8 +130,53 @@ def mixed_sign_stream(ctx):
             ctx.oracle_failure(info, fails[:3])
 
 
+def symmetric_block_stream(ctx):
+    """Pixel sets whose sky covariance has two equal eigenvalues (square blocks of constant value, sets invariant under a
+    quarter turn): the widths are real, equal up to rounding, and equal to scale x sqrt(eigenvalue).  Oracle only."""
+    rng = ctx.rng('c11-symmetric')
+    for it in range(80 if ctx.quick else 800):
+        nd = rng.choice([2, 3])
+        k = rng.randint(2, 7)
+        wgt = Fraction(rng.choice([3, 25, 10, 1, 7, 33, 70]), 10)
+        cells = set()
+        if rng.random() < 0.5:
+            cells = {(i, j) for i in range(k) for j in range(k)}
+        else:
+            # a random set closed under rotation by 90 degrees about the centre of a k x k square
+            for _ in range(rng.randint(1, 4)):
+                i, j = rng.randrange(k), rng.randrange(k)
+                for _r in range(4):
+                    cells.add((i, j))
+                    i, j = j, k - 1 - i
+        oy, ox = rng.randint(0, 5), rng.randint(0, 5)
+        pts = [(([rng.randint(0, 2)] if nd == 3 else []) + [oy + i, ox + j], wgt) for i, j in sorted(cells)]
+        if nd == 3:
+            pts = [([1] + p[1:], w) for p, w in pts]
+        dx = rng.choice([1.0, 2.0])
+        md = {'data_unit': u.Jy, 'spatial_scale': dx * u.arcsec}
+        info = {'stream': 'symmetric pixel sets', 'nd': nd, 'points': [[p, str(w)] for p, w in pts]}
+        fails = []
+        try:
+            m0, m1, m2 = exact_moments(pts, nd)
+            with warnings.catch_warnings():
+                warnings.simplefilter('ignore')
+                st = (PPStatistic if nd == 2 else PPVStatistic)(stat_of(pts, nd), dict(md, **({'vaxis': 0} if nd == 3 else {})))
+                obs, _ = values(st, ['major_sigma', 'minor_sigma', 'radius', 'area_ellipse'])
+            o = nd - 2
+            a, b, c = float(m2[o][o]), float(m2[o][o + 1]), float(m2[o + 1][o + 1])
+            l1, l2 = roots(a + c, a * c - b * b)
+            check_sky('symmetric set', obs, dx, l1, l2, fails, floor=dx * math.sqrt(max(abs(a), abs(c), 1e-30)))
+        except Exception as e:
+            fails.append('raised %r' % (e,))
+        ctx.count('symmetric_sets')
+        ctx.case_done(None, ('symmetric', it))
+        if fails:
+            ctx.oracle_failure(info, fails[:3])
+
+
 def explore(ctx):
     mixed_sign_stream(ctx)
+    symmetric_block_stream(ctx)
     rng = ctx.rng('c11')
     terms, expect = [], []
     warnings.simplefilter('ignore')
